@@ -65,7 +65,7 @@ def monitor_sched(case_lines, out_lines, S, F):
     """oracles on one implementation trace; returns list of (prop, sig, msg)"""
     V = []
     if out_lines and out_lines[0].startswith("died"):
-        for p_ in ("C01", "C02", "C03", "C04", "C07", "C08", "C15"):
+        for p_ in ("C01", "C02", "C03", "C04", "C07", "C08", "C15", "C19"):
             V.append((p_, "impl-crash", f"the implementation killed the process ({out_lines[0].strip()}: SIGSEGV / abort inside the crate) while this schedule was running"))
         return V
     progs = parse_case_file(case_lines)
@@ -176,6 +176,8 @@ def monitor_sched(case_lines, out_lines, S, F):
                 V.append(("C02", "panic", f"t={tid} {' '.join(op)} -> {r}"))
                 if op[0] in ("rd", "rd_var"):
                     V.append(("C15", "reader-panics", f"t={tid} {' '.join(op)} -> {r}"))
+                if op[0] == "checksum":
+                    V.append(("C19", "checksum-panics", f"t={tid} {' '.join(op)} -> {r}"))
             if op[0] in ("rd", "rd_var") and tid in last_cursor:
                 # judged against the cursor value this very call observed (its own load of `allocated`)
                 al_ = last_cursor[tid]; off_ = int(op[-1])
@@ -218,7 +220,7 @@ def monitor_sched(case_lines, out_lines, S, F):
             elif op[0] == "verify" and o.get("v") == "0":
                 V.append(("C02", "bytes-changed", f"t={tid} verify {op[1]}: the bytes of a live handle were modified by someone else"))
         elif kind == "died":
-            for p_ in ("C01", "C02", "C03", "C04", "C07", "C08", "C15"):
+            for p_ in ("C01", "C02", "C03", "C04", "C07", "C08", "C15", "C19"):
                 V.append((p_, "impl-crash", f"the implementation killed the process ({l.strip()}: SIGSEGV/abort inside the crate) while this schedule was running"))
         elif kind == "hang":
             sig = site_name(o.get("at"), S, F)
@@ -531,7 +533,7 @@ def sched_stage(prop, P, tags, tier, seed, replay, wdir, S, F):
             continue
         cases = [[l for l in c if l.strip() and not l.startswith("#")] for c in cases]
         cases = [c for c in cases if c]
-        races = hb_races(pre + ".impl") if ("C12" in tags and not impl_only) else []
+        races = hb_races(pre + ".impl") if (("C12" in tags or "C08" in tags) and not impl_only) else []
         for k, cl in enumerate(cases):
             il = impl[k] if k < len(impl) else []
             ml = model[k] if k < len(model) else []
@@ -559,7 +561,10 @@ def sched_stage(prop, P, tags, tier, seed, replay, wdir, S, F):
                 if m and int(m.group(1)) > 0:
                     for msg in races[k][1:3]:
                         sig = "mixed-race" if msg.startswith("mixed") else "data-race"
-                        mon.append((pre, k, cl, ("C12", sig, msg)))
+                        if "C12" in tags: mon.append((pre, k, cl, ("C12", sig, msg)))
+                        # the arena's zero-fill itself races with the previous owner's writes: the zeroes are not guaranteed
+                        if "C08" in tags and msg.startswith("race: clear"):
+                            mon.append((pre, k, cl, ("C08", "zero-fill-races", msg)))
             # class signature
             kinds = set()
             for l in il:
